@@ -1007,3 +1007,206 @@ def mon_C18(sc, trace):
                 v.append("C18: eventually-assertion %d never held after any executed event but the run ended without a failure" % i2)
                 break
     return v
+
+
+# ------------------------------------------------------------------------------------------------
+# plugins
+# ------------------------------------------------------------------------------------------------
+
+def _items(line):
+    return [x.strip() for x in line.split("|")][1:]
+
+
+def mon_C15(case, lines):
+    """replays the registrations and checks each dispatch against the chain as it was when the
+    dispatch started"""
+    v = []
+    chains = {}            # (inst, kind) -> [handler ids], newest first
+    wrapped = set()
+    counts = [0] * len(case["beh"])
+
+    def beh(h):
+        table = case["beh"][h]
+        n = counts[h]
+        counts[h] += 1
+        if not table:
+            return "continue", []
+        return table[min(n, len(table) - 1)]
+
+    def apply(o, got, pos):
+        kind_, i, k, h = o
+        if i not in wrapped:
+            return
+        ch = chains.setdefault((i, k), [])
+        if kind_ == "reg":
+            ch.insert(0, h)
+        else:
+            if h in ch:
+                ch.remove(h)
+    for op, line in zip(case["ops"], lines):
+        items = _items(line)
+        if any(x.startswith(("exc:", "runaway")) for x in items):
+            v.append("C15: %s raised / did not terminate: %s" % (op, items[-1]))
+            return v
+        if op[0] == "create":
+            wrapped.add(op[1])
+        elif op[0] in ("reg", "unreg"):
+            if op[1] in wrapped:
+                ch = chains.setdefault((op[1], op[2]), [])
+                if op[0] == "unreg":
+                    if (op[3] in ch) != ("valueerror" not in items):
+                        v.append("C15: unregister of handler %d (registered: %s) gave %s" % (op[3], op[3] in ch, items))
+                apply(op, items, 0)
+        elif op[0] == "disp":
+            i, k = op[1], op[2]
+            if i not in wrapped:
+                if items != ["proto %d %s" % (i, k)]:
+                    v.append("C15: dispatch on an instance without dispatcher gave %s" % items)
+                continue
+            snap = list(chains.get((i, k), []))
+            want = []
+            stopped = False
+            for h in snap:
+                want.append("call %d %s %d" % (i, k, h))
+                res, ops = beh(h)
+                for o in ops:
+                    if o[1] in wrapped:
+                        ch = chains.setdefault((o[1], o[2]), [])
+                        if o[0] == "unreg" and o[3] not in ch:
+                            want.append("valueerror")
+                        apply(o, None, 0)
+                    else:
+                        want.append("nowrapper")
+                if res == "interrupt" and k in ("timer", "telem", "packet"):
+                    stopped = True
+                    break
+            if not stopped:
+                want.append("proto %d %s" % (i, k))
+            if items != want:
+                gc = [x for x in items if x.startswith(("call", "proto"))]
+                wc = [x for x in want if x.startswith(("call", "proto"))]
+                if gc != wc:
+                    v.append("C15: dispatch %d/%s with chain (newest first) %s invoked %s, expected %s" % (i, k, snap, gc, wc))
+                    return v
+    return v
+
+
+def mon_C16(case, lines):
+    v = []
+    mission = None
+    cur, rev, idle = None, False, True
+    last_goto = None
+    mode, tol = case["mode"], case["tol"]
+    for op, line in zip(case["ops"], lines):
+        head = line.split("|")[0].split()
+        items = _items(line)
+        if head[0].startswith(("exc:", "status-exc")) or len(head) < 7:
+            v.append("C16: %s raised %s" % (op[0], head[0]))
+            return v
+        res = head[0]
+        ncur = None if head[2] == "none" else int(head[2])
+        nrev, nidle = head[4] == "1", head[6] == "1"
+        gotos = [tuple(fh(x) for x in it.split()[1:4]) for it in items if it.startswith("goto")]
+        if gotos:
+            last_goto = gotos[-1]
+        # expected error behaviour
+        if op[0] == "start":
+            mission = [tuple(p) for p in op[1]]
+        elif op[0] == "stop":
+            mission = None
+        want_err = False
+        if op[0] == "setwp":
+            want_err = mission is None or op[1] < 0 or op[1] >= len(mission)
+        if op[0] == "setrev":
+            want_err = mission is None or mode != "reverse"
+        if want_err != (res == "err"):
+            v.append("C16: %s %s -> %s, expected %s" % (op[0], op[1:] if len(op) > 1 else "", res, "the plugin's exception" if want_err else "success"))
+        if res == "err":
+            if (ncur, nrev, nidle) != (cur, rev, idle) or items:
+                v.append("C16: a refused %s changed the status from %s to %s or issued commands %s" % (op[0], (cur, rev, idle), (ncur, nrev, nidle), items))
+        # mission may have stopped by itself (NO loop at the end)
+        if nidle and op[0] not in ("start",):
+            mission = None if ncur is None else mission
+        # consistency
+        if nidle != (ncur is None):
+            v.append("C16: after %s: idle=%s but current waypoint=%s" % (op[0], nidle, ncur))
+        if nidle and nrev:
+            v.append("C16: after %s: reversed while idle" % op[0])
+        if nrev and mode != "reverse":
+            v.append("C16: after %s: reversed in loop mode %s" % (op[0], mode))
+        if not nidle and mission is not None and ncur is not None:
+            if not (0 <= ncur < len(mission)):
+                v.append("C16: after %s: current waypoint %d is not a valid index into a mission of %d waypoints" % (op[0], ncur, len(mission)))
+            elif last_goto != mission[ncur]:
+                v.append("C16: after %s: current waypoint is %d = %s but the last goto issued is to %s" % (op[0], ncur, mission[ncur], last_goto))
+        # order
+        if op[0] == "telem" and mission is not None and cur is not None and 0 <= cur < len(mission) and res == "ok":
+            reached = _py_sq(tuple(op[1]), mission[cur]) <= tol ** 2
+            n = len(mission)
+            if not reached:
+                want = (cur, rev, idle)
+            elif rev:
+                want = (cur - 1, True, False) if cur > 0 else ((None, False, True) if mode == "no" else (0, False if mode == "reverse" else rev, False))
+            elif cur + 1 < n:
+                want = (cur + 1, False, False)
+            else:
+                want = {"no": (None, False, True), "restart": (0, False, False), "reverse": (max(n - 2, 0), True, False)}[mode]
+            if (ncur, nrev, nidle) != want:
+                v.append("C16: telemetry %s waypoint %d (%s, reversed=%s): status became %s, the loop mode %s implies %s"
+                         % ("reached" if reached else "did not reach", cur, mission[cur], rev, (ncur, nrev, nidle), mode, want))
+            if not reached and items:
+                v.append("C16: telemetry outside the tolerance issued %s" % items)
+        if nidle:
+            mission = None
+        cur, rev, idle = ncur, nrev, nidle
+    return v
+
+
+def mon_C17(case, lines):
+    v = []
+    box, tol = case["box"], case["tol"]
+    ongoing, target = False, None
+    ops = []
+    for op in case["ops"]:
+        if op[0] in ("telem+finish", "telem+init"):
+            ops += [("telem", op[1]), ("finish",) if op[0] == "telem+finish" else ("init",)]
+        else:
+            ops.append(op)
+    for op, line in zip(ops, lines):
+        head = line.split("|")[0].split()
+        items = _items(line)
+        if head[0].startswith("exc:"):
+            v.append("C17: %s raised %s" % (op[0], head[0][4:]))
+            return v
+        if "returned-differs-from-goto" in line:
+            v.append("C17: travel_to_random_waypoint returned a waypoint different from the goto it sent")
+        n_ong = head[1] == "1"
+        n_tgt = None if head[3] == "none" else tuple(fh(x) for x in head[3:6])
+        gotos = [tuple(fh(x) for x in it.split()[1:4]) for it in items if it.startswith("goto")]
+        for g in gotos:
+            for k in range(3):
+                a, b = box[k]
+                eps = 1e-9 * (1 + abs(a) + abs(b))
+                if not (min(a, b) - eps <= g[k] <= max(a, b) + eps):
+                    v.append("C17: waypoint %s outside the configured box %s" % (g, box))
+        if op[0] == "init":
+            if len(gotos) != 1 or not n_ong or n_tgt != gotos[-1]:
+                v.append("C17: initiate: ongoing=%s target=%s gotos=%s" % (n_ong, n_tgt, gotos))
+        elif op[0] == "finish":
+            if gotos or n_ong:
+                v.append("C17: finish: ongoing=%s, commands %s" % (n_ong, gotos))
+        elif op[0] == "travel":
+            if len(gotos) != 1 or n_ong != ongoing:
+                v.append("C17: travel: ongoing %s -> %s, gotos %s" % (ongoing, n_ong, gotos))
+        elif op[0] == "telem":
+            if not ongoing:
+                if gotos:
+                    v.append("C17: no trip is ongoing but telemetry produced movement commands %s" % gotos)
+            elif target is not None:
+                arrived = _py_sq(tuple(op[1]), target) <= tol * tol
+                if arrived and (len(gotos) != 1 or n_tgt != gotos[-1]):
+                    v.append("C17: arrived at the target %s (telemetry %s) but %d waypoint(s) drawn, target now %s" % (target, op[1], len(gotos), n_tgt))
+                if not arrived and gotos:
+                    v.append("C17: telemetry %s is not within %r of the target %s but a new waypoint was drawn" % (op[1], tol, target))
+        ongoing, target = n_ong, n_tgt
+    return v
